@@ -18,6 +18,12 @@ from engine.statusmon import Mon
 LEVEL = "other"
 DOCUMENTED = ["Ref", "GetAtt", "Base64", "Sub", "GetAZs", "ImportValue", "Condition", "RefAll", "Select", "Split", "Join", "FindInMap",
               "And", "Equals", "Contains", "EachMemberIn", "EachMemberEquals", "ValueOf", "If", "Not", "Or"]
+# payload forms in which the CloudFormation documentation (and Guard's own docs for the rule-set functions) write each short form:
+#   scalar:   !Ref x, !GetAtt a.b, !Sub "..", !Base64 x, !GetAZs r, !ImportValue n, !Condition c, !RefAll t
+#   sequence: !GetAtt [a, b], !Sub [s, {..}], !Select [i, l], !Split [d, s], !Join [d, l], !FindInMap [m, k, k2], !If/!And/!Or/!Not/!Equals [..],
+#             !Contains / !EachMemberIn / !EachMemberEquals / !ValueOf [..]
+SCALAR_FORM = ["Ref", "GetAtt", "Base64", "Sub", "GetAZs", "ImportValue", "Condition", "RefAll"]
+SEQUENCE_FORM = ["GetAtt", "Sub", "Select", "Split", "Join", "FindInMap", "And", "Equals", "Contains", "EachMemberIn", "EachMemberEquals", "ValueOf", "If", "Not", "Or"]
 MV = "rules::values::MarkedValue"
 VAL = "rules::values::Value"
 
@@ -73,6 +79,12 @@ def tag_tables(ctx, cr):
         ctx.ob(rule, "%s:long-form:%s" % (rule, k), v == exp, "!%s maps to %r, expected %r" % (k, v, exp), fn=fm)
     for t in DOCUMENTED:
         ctx.ob(rule, "%s:documented:%s" % (rule, t), t in mp and (t in sg or t in sq), "documented short form !%s is missing from the tables" % t, fn=fm)
+    # the libyaml loader consults ONE table per payload form (scalar -> SINGLE_VALUE_FUNC_REF, sequence -> SEQUENCE_VALUE_FUNC_REF) while the
+    # serde path accepts a tag found in either: they agree on every documented (tag, form) pair only if each form's table lists the tag
+    for t in SCALAR_FORM:
+        ctx.ob(rule, "%s:scalar-form:%s" % (rule, t), t in sg, "`!%s <scalar>` is documented but %s is not in SINGLE_VALUE_FUNC_REF: the validate loader keeps the bare scalar while the test/API loader expands it" % (t, t), fn=fs)
+    for t in SEQUENCE_FORM:
+        ctx.ob(rule, "%s:sequence-form:%s" % (rule, t), t in sq, "`!%s [..]` is documented but %s is not in SEQUENCE_VALUE_FUNC_REF: the validate loader keeps the bare list while the test/API loader expands it" % (t, t), fn=fq)
     # both loaders go through the same tables
     users = {"rules::libyaml::loader::handle_single_value_func_ref": ("SINGLE_VALUE_FUNC_REF",),
              "rules::libyaml::loader::handle_sequence_value_func_ref": ("SEQUENCE_VALUE_FUNC_REF",),
